@@ -503,17 +503,10 @@ func canonDirectives(s *Spec) string {
 }
 
 // hiddenDirectiveArgs lists "directive.arg" for the directive arguments whose type is not visible under F.
-func hiddenDirectiveArgs(s *Spec, F map[string]bool) []string {
-	if dirArgsFixed {
-		return nil // the library hides them itself (fix 05): nothing is outside the theorems' domain
-	}
-	return gatedDirectiveArgs(s, F)
-}
-
-// dirArgsFixed: the library under test treats a directive argument of a hidden type as undefined (fix
-// 05). Detected at start-up (probeDirArgsFix), so that the same harness is right before and after the
-// fix is applied to /repo.
-var dirArgsFixed bool
+// Since fix 05 (a3e0047) the library hides a directive argument whose type is not visible to the
+// request (DirectiveDefinition.VisibleArguments), which is what erase does: nothing is outside the
+// theorems' domain on account of directive arguments.
+func hiddenDirectiveArgs(s *Spec, F map[string]bool) []string { return nil }
 
 func gatedDirectiveArgs(s *Spec, F map[string]bool) []string {
 	var out []string
